@@ -1,64 +1,7 @@
-(* C29, pairs involving doubles: the finite palette the check runs on the library (exact
-   integers/rationals incl. multi-limb and 2^53+1, signed zeros, subnormal/huge/infinite
-   doubles, doubles equal to exact values, +-oo), swept completely by the kernel. *)
-From SE Require Import Num.NumModel Num.NumPalette.
+(* C29: the defect classes excluded by the guarded theorems are genuine refutations (each is
+   replayed on the library by the check), and the repaired Le on equal values of different kinds. *)
+From SE Require Import Num.NumModel.
 From Coq Require Import List Bool QArith.
-
-Definition res_ob_eqb (r : res (option bool)) (b : bool) : bool :=
-  match r with Ok (Some t) => Bool.eqb t b | _ => false end.
-
-Lemma res_ob_eqb_true : forall r b, res_ob_eqb r b = true -> r = Ok (Some b).
-Proof. intros [[t|]| | |] b H; cbn in H; try discriminate H. apply Bool.eqb_prop in H. now subst. Qed.
-
-Definition lt_guard (a b : number) : bool := guard_inexact_conv a b || guard_dblinf_infty a b.
-Definition le_guard (a b : number) : bool := lt_guard a b.
-
-Definition lt_ok (a b : number) : bool :=
-  lt_guard a b ||
-  match val a, val b with Some x, Some y => res_ob_eqb (rel_lt a b) (ext_ltb x y) | _, _ => false end.
-Definition le_ok (a b : number) : bool :=
-  le_guard a b ||
-  match val a, val b with Some x, Some y => res_ob_eqb (rel_le a b) (ext_leb x y) | _, _ => false end.
-Definition dual_ok (a b : number) : bool :=
-  le_guard a b ||
-  match rel_lt b a with Ok (Some t) => res_ob_eqb (rel_le a b) (negb t) | _ => false end.
-
-Lemma sweep : forall (f : number -> number -> bool) (l : list number),
-  forallb (fun a => forallb (f a) l) l = true ->
-  forall a b, In a l -> In b l -> f a b = true.
-Proof.
-  intros f l H a b Ha Hb. rewrite forallb_forall in H. specialize (H a Ha). rewrite forallb_forall in H. exact (H b Hb).
-Qed.
-
-Theorem Lt_correct_palette_guarded : forall a b, In a real_palette -> In b real_palette ->
-  lt_guard a b = false ->
-  exists x y, val a = Some x /\ val b = Some y /\ rel_lt a b = Ok (Some (ext_ltb x y)).
-Proof.
-  assert (H : forallb (fun a => forallb (lt_ok a) real_palette) real_palette = true) by (vm_compute; reflexivity).
-  intros a b Ha Hb Hg. pose proof (sweep lt_ok real_palette H a b Ha Hb) as Hk. unfold lt_ok in Hk. rewrite Hg in Hk.
-  cbn [orb] in Hk. destruct (val a) as [x|]; [|discriminate Hk]. destruct (val b) as [y|]; [|discriminate Hk].
-  exists x, y. repeat split. now apply res_ob_eqb_true.
-Qed.
-
-Theorem Le_correct_palette_guarded : forall a b, In a real_palette -> In b real_palette ->
-  le_guard a b = false ->
-  exists x y, val a = Some x /\ val b = Some y /\ rel_le a b = Ok (Some (ext_leb x y)).
-Proof.
-  assert (H : forallb (fun a => forallb (le_ok a) real_palette) real_palette = true) by (vm_compute; reflexivity).
-  intros a b Ha Hb Hg. pose proof (sweep le_ok real_palette H a b Ha Hb) as Hk. unfold le_ok in Hk. rewrite Hg in Hk.
-  cbn [orb] in Hk. destruct (val a) as [x|]; [|discriminate Hk]. destruct (val b) as [y|]; [|discriminate Hk].
-  exists x, y. repeat split. now apply res_ob_eqb_true.
-Qed.
-
-Theorem Le_not_Lt_palette_guarded : forall a b, In a real_palette -> In b real_palette ->
-  le_guard a b = false ->
-  exists t, rel_lt b a = Ok (Some t) /\ rel_le a b = Ok (Some (negb t)).
-Proof.
-  assert (H : forallb (fun a => forallb (dual_ok a) real_palette) real_palette = true) by (vm_compute; reflexivity).
-  intros a b Ha Hb Hg. pose proof (sweep dual_ok real_palette H a b Ha Hb) as Hk. unfold dual_ok in Hk. rewrite Hg in Hk.
-  cbn [orb] in Hk. destruct (rel_lt b a) as [[t|]| | |]; try discriminate Hk.
-  exists t. split; [reflexivity|]. now apply res_ob_eqb_true.
-Qed.
 
 (* the guarded classes are genuine refutations (each replayed on the library by the check) *)
 Local Open Scope Z_scope.
